@@ -24,8 +24,9 @@ def find_canonizers(p):
         if f.cls or "." in f.qual or len(f.params) != 3:
             continue
         r, s, order = f.params
-        cmp_ = any(isinstance(n, ast.Compare) and s in {x.id for x in ast.walk(n) if isinstance(x, ast.Name)}
-                   and order in {x.id for x in ast.walk(n) if isinstance(x, ast.Name)} for n in ast.walk(f.node))
+        # role: an encoder that conditionally replaces its `s` parameter before delegating
+        cmp_ = any(isinstance(n, ast.If) and any(isinstance(a, ast.Assign) and any(isinstance(t, ast.Name) and t.id == s for t in a.targets) for a in ast.walk(n)) for n in ast.walk(f.node)) \
+            or any(isinstance(n, ast.Call) and isinstance(n.func, ast.Name) and n.func.id == "min" for n in ast.walk(f.node))
         calls = [n for n in ast.walk(f.node) if isinstance(n, ast.Call) and isinstance(n.func, ast.Name) and n.func.id.startswith("sigencode_") and n.func.id in m.funcs]
         if cmp_ and calls:
             out.append((f, sorted({c.func.id for c in calls})))
